@@ -370,7 +370,8 @@ DEP_STATES = ["nonempty", "empty", "missing", "file", "symlink"]
 # live_dir / live_file / dangling: SOMEBODY ELSE'S links (they lead outside cond-out): a conflict since D28;
 # own_old / own_gone: links of the form Conductor makes (to <name>.task.<v> inside cond-out), the second one dangling:
 # both are replaced (D27)
-PRE_STATES = ["nodir", "none", "live_dir", "live_file", "dangling", "own_old", "own_gone", "file", "dir"]
+# lookalike: somebody else's link that leads OUTSIDE cond-out (through `..`) to a directory with a task-directory name
+PRE_STATES = ["nodir", "none", "live_dir", "live_file", "dangling", "lookalike", "own_old", "own_gone", "file", "dir"]
 
 
 def dep_dir(pkg, name, ts=None):
@@ -385,6 +386,8 @@ def pre_entry(kind, out, name="a"):
         return ("l", "/".join(up_co + ["zz", name + ".task.3"])), [(["r", "cond-out", "zz", name + ".task.3"], "dir")]
     if kind == "own_gone":
         return ("l", "/".join(up_co + ["zz", name + ".task.4"])), []
+    if kind == "lookalike":
+        return ("l", "/".join(up + ["published", name + ".task"])), [(["r", "published", name + ".task"], "dir")]
     if kind == "live_dir":
         return ("l", "/".join(up + ["old", "v1"])), [(["r", "old", "v1"], "dir")]
     if kind == "live_file":
@@ -443,7 +446,7 @@ def random_scenario(rng):
             q = rng.random()
             if q < 0.45:
                 continue
-            kind = rng.choice(["own_old"] * 4 + ["own_gone", "own_gone", "live_dir", "live_file", "dangling", "file", "dir"])
+            kind = rng.choice(["own_old"] * 4 + ["own_gone", "own_gone", "live_dir", "live_file", "dangling", "lookalike", "lookalike", "file", "dir"])
             e, extra = pre_entry(kind, out, nm)
             sc["pre"][nm] = e
             sc["extra"] += extra
